@@ -15,19 +15,22 @@ func init() {
 	kit.Register(&kit.Prop{
 		ID:    "C16",
 		Title: "COBS framing delivers each frame intact for any read chunking",
-		Explanation: "Byte-conservation clauses of the COBS reader/writer decided on every CFG path (DESIGN.md §3/C16); the behaviour over all read segmentations is NOT decided. " +
+		Explanation: "Byte-conservation clauses of the COBS reader/writer decided on every CFG path (DESIGN.md §3/C16); the behaviour over all read segmentations is decided for bounded streams only (R7). " +
 			"R1 on the device-read path every return that hands a frame to the caller is preceded by a write of b[terminator(+1) : readStart+count] into the leftover buffer (or the tail is provably empty), the decoded slice starts at 0 and ends at the terminator, the byte tested as terminator lies below readStart+count, and the written value is that slice itself or a byte-for-byte copy (a bytes.Trim*/Replace*/Map… of it is a violation); " +
 			"R2 before the first device read the leftover bytes are either known absent, or moved into b[0:] exactly once by leftover.Read (which drains them) and the device read starts exactly behind them; bytes handed to a bytes.NewBuffer object that is never read, or copied without being removed, are lost / seen twice; " +
 			"R3 a frame served from the leftover buffer takes out of it exactly the prefix ending at the terminator it found (tested below the length of the leftover bytes; leftover.Read, or copy plus leftover.Next now or deferred), into b[0:], and decodes no more than it took; every exit taken after such a fragment was found and before any device read — error exits included — has removed it (progress); " +
 			"R4 the read loop calls the device again only with b[previous start + previous count:] and only after that position was established to be < len(b); after a device read without error it gives up (returns nothing) only when the position reached len(b) or exceeds a configuration field of the receiver; " +
 			"R6 at the first device read every flag tested by the scan of the device bytes is true only after a moved byte b[K], K below the number of moved bytes, was seen non-zero, and false only when nothing was moved, the examined constant prefix covers all moved bytes, or a counting loop over all moved bytes established b[i] == 0 in every continuing iteration; " +
-			"R5 what the writer hands to the device is zero bytes followed by Encode(<whole payload parameter>) on every non-error path. " +
+			"R5 what the writer hands to the device is zero bytes followed by Encode(<whole payload parameter>) on every non-error path; " +
+			"R7 the reader, run on the object the package's constructor builds, is evaluated on the AST (kit.XMachine; the in-place decoder replaced by its contract) for every stream of up to 6 bytes over {delimiter, frame byte, at most one damaged frame byte} and every cut of it into device reads: the frames handed to the caller are exactly the undamaged terminated frames, in order, each once, and none is still held back when the reader asks the device for bytes that do not come (this covers which bytes of a read the terminator scan examines and the packet-start flag across reads); a construct the evaluator does not model leaves R7 undecided. " +
+			"A terminator found by bytes.IndexByte(<view of b | leftover bytes>, 0) is followed by R1–R3 like a hand-written `x[i] == 0` test. " +
 			"Index arithmetic is compared as linear forms over the current values of local variables; facts are dropped when a variable is assigned.",
 		Assumptions: []string{
 			"io.Reader contract: Read(p) returns 0 <= n <= len(p) and fills p[:n]; with len(p)==0 it returns 0, nil",
 			"bytes.Buffer: Read(p) removes min(len(p), Len()) bytes from the front into p; Write appends; a Buffer made by bytes.NewBuffer(x) never writes into x[:len(x)]",
 			"github.com/dim13/cobs.Encode returns the encoded frame including its terminating zero; the in-place decoder's arithmetic is not checked",
-			"non-atom conditions are nondeterministic (both edges explored); resynchronisation after damage and the packet-start flag carried across reads are not decided",
+			"non-atom conditions are nondeterministic (both edges explored); resynchronisation after damage and the packet-start flag carried across reads are decided by R7 within its bound only",
+			"R7: the caller passes a fresh zeroed buffer longer than the stream (as client/serial.go does) and the constructor's integer parameters are that length; a device read returns at least one byte; streams longer than 6 bytes, frames at the length limit and the decoder's own length checks are not covered",
 		},
 		Run: runC16,
 	})
@@ -1027,7 +1030,7 @@ func (fl *c16Flow) isView(e ast.Expr) bool {
 			return true
 		}
 	}
-	return false
+	return fl.aliasRooted(e) // a slice expression of such a variable
 }
 
 // viewBounds gives the bounds of a view of the caller's buffer as linear
@@ -1036,6 +1039,9 @@ func (fl *c16Flow) isView(e ast.Expr) bool {
 // variable they mention changes.
 func (fl *c16Flow) viewBounds(e ast.Expr, s kit.S) (lo, hi kit.Affine, ok bool) {
 	rd := fl.rd
+	if fl.aliasRooted(e) {
+		return fl.aliasSliceBounds(e, s)
+	}
 	if id, isID := ast.Unparen(e).(*ast.Ident); isID {
 		if o := kit.ObjOf(rd.f.Info(), id); o != nil && rd.viewVars[o] {
 			v := s.Get("q:al:" + kit.VarToken(o))
@@ -1561,6 +1567,10 @@ func (fl *c16Flow) run() {
 				return []kit.S{s.Set("q:lounk", "leftover."+m+" at "+f.At(call))}
 			}
 		}
+		// a search for the delimiter moves nothing; its result is bound at the assignment
+		if fl.indexByteZero(call) != "" {
+			return nil
+		}
 		// other calls that receive leftover bytes
 		touches := false
 		for _, a := range call.Args {
@@ -1796,6 +1806,11 @@ func (fl *c16Flow) run() {
 				return []kit.S{s}
 			}
 			fl.onReturn(y, s, constructOfReturn(y))
+		}
+		if as, ok := n.(*ast.AssignStmt); ok {
+			if out, ok := fl.indexByteAssign(s, as); ok {
+				return out
+			}
 		}
 		if as, ok := n.(*ast.AssignStmt); ok && len(as.Lhs) == 1 && len(as.Rhs) == 1 && (as.Tok == token.ASSIGN || as.Tok == token.DEFINE) {
 			if out, ok := fl.evalBoolAssign(s, as.Lhs[0], as.Rhs[0]); ok {
@@ -2514,6 +2529,7 @@ func runC16(c *kit.Ctx) {
 	r4 := c.Rule("R4", "bounded accumulation: reads continue behind the data, stop only when full", 2)
 	r5 := c.Rule("R5", "writer hands zeros ‖ Encode(payload) to the device", 1)
 	r6 := c.Rule("R6", "packet-start flag reflects the bytes moved from the leftover buffer", 1)
+	r7 := c.Rule("R7", "bounded streams: every frame delivered once for every cut into device reads", 1)
 	rules := map[string]*kit.Rule{"R1": r1, "R2": r2, "R3": r3, "R4": r4, "R6": r6}
 
 	readers := c16FindReaders(c)
@@ -2537,6 +2553,13 @@ func runC16(c *kit.Ctx) {
 			default:
 				o.OK("%s", strings.Join(site.ok, "; "))
 			}
+		}
+	}
+	segDone := map[*kit.Func]bool{}
+	for _, rd := range readers {
+		if entry := c16SegEntry(c, rd); rd.dev != nil && !segDone[entry] {
+			segDone[entry] = true
+			c16Segments(c, r7, rd)
 		}
 	}
 	c16Writer(c, r5)
